@@ -1,12 +1,15 @@
 import Mkdb.Proofs.Roundtrip
+import Mkdb.Proofs.RoundtripStmt8
 /-!
-# C10 — parsing is faithful (token level, condition sub-language)
+# C10 — parsing is faithful (token level)
 
-Property theorems only.  `C10_cond_roundtrip` is the full statement for boolean conditions:
+Property theorems only.  `C10_cond_roundtrip` is the statement for boolean conditions:
 *every* parenthesis-free combination of comparisons with AND / OR — any number of
-predicates, any operands — parses to the tree in which AND binds tighter than OR.  The
-remaining productions (select lists, joins, VALUES rows, …) are tied by the
-correspondence check and the C10 judge on generated statements (`…_partial`).
+predicates, any operands — parses to the tree in which AND binds tighter than OR.
+`C10_statement_roundtrip` (second half of the file) is the statement for the whole grammar:
+every well-formed statement, written as tokens with any choice of the optional spellings,
+is read back by `Parser.Parse` unchanged; `C10_wellformed_iff_parseable` says that the well-formed
+statements are exactly the statements the parser can return.
 -/
 namespace Mkdb.Sql
 open Mkdb.Scan Mkdb.Generated
@@ -102,5 +105,269 @@ example : GoodV (fun l => match l with
     | .int _ => ⟨t_INT, [49]⟩ | .str s => ⟨t_STR, s⟩ | .bool true => ⟨t_TRUE, []⟩ | .bool false => ⟨t_FALSE, []⟩)
     (.lit (.int 1)) := by
   exact ⟨rfl, rfl⟩
+
+/-! ## The whole grammar: `renderStmt` and `Parser.Parse` -/
+
+/-- **C10.std_literals**: the standard literal tokens - `INT` with the decimal digits of a
+non-negative int64, `STR` with the bytes, `TRUE` / `FALSE` - are literal tokens and `Token.Val`
+reads the literal back from them.  Excluded: negative integers and integers above 2^63-1 (the
+scanner has no signed integer token). -/
+theorem C10_std_literals_good (l : Lit) (h : stdLit l = true) : GoodLit stdLitTok l :=
+  stdLitTok_good l h
+
+example : stdLit (.int 9223372036854775807) = true ∧ stdLit (.str [39, 0, 255]) = true ∧ stdLit (.bool false) = true := by
+  decide
+
+/-- **C10.condition_roundtrip (any shape)**: every condition `OrCondition` can return -
+AND-terms joined by OR (nested to the right), an AND-term being comparisons joined by AND whose
+last operand may be a bare value - is read back from its tokens, AND grouping tighter than OR,
+consuming exactly those tokens.  Hypotheses: the literals are written by good tokens, the next
+token is not `.`, a comparison operator, AND or OR, and the fuel is the token count + 2. -/
+theorem C10_condition_roundtrip_any_shape (o : ROpts) (ok : Lit → Bool)
+    (hlit : ∀ l, ok l = true → GoodLit o.lit l) (c : Cond) (hc : wfCond ok c = true)
+    (rest : List Token) (hr : HeadNot condBad rest) (f : Nat) (hf : (tokCond o c).length + 2 ≤ f) :
+    orCond f (tokCond o c ++ rest) = .ok c rest :=
+  orCond_tokCond o ok hlit c hc rest hr f hf
+
+/-- `a = 1 AND b OR c < 'x'`: the last operand of the AND chain is a bare column -/
+example : orCond 20 (tokCond {} (.or (.and ⟨.col ⟨[], [97]⟩, t_EQ, .lit (.int 1)⟩ (.val (.col ⟨[], [98]⟩)))
+      (.pred ⟨.col ⟨[], [99]⟩, t_LT, .lit (.str [120])⟩)) ++ [⟨t_SEMICOLON, []⟩]) =
+    .ok (.or (.and ⟨.col ⟨[], [97]⟩, t_EQ, .lit (.int 1)⟩ (.val (.col ⟨[], [98]⟩)))
+      (.pred ⟨.col ⟨[], [99]⟩, t_LT, .lit (.str [120])⟩)) [⟨t_SEMICOLON, []⟩] :=
+  C10_condition_roundtrip_any_shape {} stdLit stdLitTok_good _ (by decide) _ (by decide) 20 (by decide)
+
+/-- **C10.no_list_cut (loops of the shape `for { x; if !match(COMMA) break }`)**: a non-empty comma
+separated list is returned whole - every element, in order - whenever the loop body reads one
+element back from its tokens and says whether a comma follows (select list, ORDER BY).
+Hypotheses: the token behind the list is not a comma (nor one the body would go on reading),
+the fuel is at least the number of elements. -/
+theorem C10_sep_list_whole {α} (body : P (α × Bool)) (tk : Nat → α → List Token) (comma : Token)
+    (hc : comma.ty = t_COMMA) (bad : List Int) (hbad : bad.contains t_COMMA = false)
+    (rest : List Token) (hrest : HeadNot (t_COMMA :: bad) rest) (N : Nat) (xs : List α)
+    (hbody : ∀ j x r', x ∈ xs → (tk j x).length ≤ N → HeadNot bad r' → body (tk j x ++ r') = withComma x r')
+    (hne : xs ≠ []) (i f : Nat) (hf : xs.length ≤ f) (hN : (tokSep tk comma i xs).length ≤ N) :
+    sepLoop f body (tokSep tk comma i xs ++ rest) = .ok xs rest :=
+  sepLoop_tok body tk comma hc bad hbad rest hrest N xs hbody hne i f hf hN
+
+/-- `ORDER BY` keys `a DESC, t.b`: both come back -/
+example : sepLoop 2 sortBody (tokSep (tokSort {}) ⟨t_COMMA, []⟩ 0 [⟨⟨[], [97]⟩, true⟩, ⟨⟨[116], [98]⟩, false⟩] ++ []) =
+    .ok [⟨⟨[], [97]⟩, true⟩, ⟨⟨[116], [98]⟩, false⟩] [] :=
+  C10_sep_list_whole sortBody (tokSort {}) ⟨t_COMMA, []⟩ rfl [t_DOT, t_ASC, t_DESC] (by decide) [] trivial 100 _
+    (fun j x r' _ _ hb => sortBody_tok {} x j r' hb) (by simp) 0 2 (by decide) (by decide)
+
+/-- **C10.no_list_cut (loops of the shape `for match(GUARD) { x; if !match(COMMA) break }`)**: a
+possibly empty comma separated list whose elements start with a guard token is returned whole
+(column definitions, INSERT column list, VALUES rows and the values of a row, SET assignments).
+Hypotheses: the token behind the list is not a comma; behind an empty list it is not the guard;
+the fuel is at least the number of elements + 1. -/
+theorem C10_guarded_list_whole {α} (tys : List Int) (body : Token → P (α × Bool)) (tk : Nat → α → List Token)
+    (comma : Token) (hc : comma.ty = t_COMMA) (bad : List Int) (hbad : bad.contains t_COMMA = false)
+    (rest : List Token) (hrest : HeadNot (t_COMMA :: bad) rest) (N : Nat) (xs : List α)
+    (hbody : ∀ j x r', x ∈ xs → (tk j x).length ≤ N → HeadNot bad r' →
+      ∃ g tl, tk j x = g :: tl ∧ tys.contains g.ty = true ∧ body g (tl ++ r') = withComma x r')
+    (hnil : xs = [] → HeadNot tys rest) (i f : Nat) (hf : xs.length + 1 ≤ f)
+    (hN : (tokSep tk comma i xs).length ≤ N) :
+    guardedLoop f tys body (tokSep tk comma i xs ++ rest) = .ok xs rest :=
+  guardedLoop_tok tys body tk comma hc bad hbad rest hrest N xs hbody hnil i f hf hN
+
+/-- the values `1, 'x', TRUE` of a VALUES row, closed by `)` -/
+example : guardedLoop 4 literalTys valBody
+      (tokSep (tokLitItem {}) ⟨t_COMMA, []⟩ 0 [.int 1, .str [120], .bool true] ++ [⟨t_RPAREN, []⟩]) =
+    .ok [.int 1, .str [120], .bool true] [⟨t_RPAREN, []⟩] :=
+  C10_guarded_list_whole literalTys valBody (tokLitItem {}) ⟨t_COMMA, []⟩ rfl [] rfl _ (by decide) 100 _
+    (fun j x r' hx _ _ => ⟨stdLitTok x, [], rfl, (stdLitTok_good x (by
+        simp only [List.mem_cons, List.not_mem_nil, or_false] at hx
+        rcases hx with rfl | rfl | rfl <;> rfl)).1, valBody_tok {} x (stdLitTok_good x (by
+        simp only [List.mem_cons, List.not_mem_nil, or_false] at hx
+        rcases hx with rfl | rfl | rfl <;> rfl)) _⟩)
+    (fun h => by cases h) 0 4 (by decide) (by decide)
+
+/-- **C10.join_chain_roundtrip**: a chain of joins - each LEFT, RIGHT or INNER (the keyword INNER
+written or not, per join), with table, optional alias and ON condition - is read back with every
+kind mapped to itself, nested to the left.  Hypotheses: well-formed ON conditions, the next token
+is not one a condition or the loop would go on reading, fuel = token count + 2. -/
+theorem C10_join_chain_roundtrip (o : ROpts) (ok : Lit → Bool) (hlit : ∀ l, ok l = true → GoodLit o.lit l)
+    (rest : List Token) (hr : HeadNot joinBad rest) (js : List JoinSpec)
+    (hw : (js.all fun j => wfCond ok j.2.2) = true) (lhs : TableRef) (i f : Nat)
+    (hf : (tokJoins o i js).length + 2 ≤ f) :
+    joinLoop f lhs (tokJoins o i js ++ rest) = .ok (js.foldl mkJoin lhs) rest :=
+  joinLoop_tok o ok hlit rest hr js hw lhs i f hf
+
+/-- `t JOIN u ON a = b RIGHT JOIN v w ON c` -/
+example : joinLoop 20 (.table ⟨[116], none⟩) (tokJoins {} 0
+      [(.inner, ⟨[117], none⟩, .pred ⟨.col ⟨[], [97]⟩, t_EQ, .col ⟨[], [98]⟩⟩),
+       (.right, ⟨[118], some [119]⟩, .val (.col ⟨[], [99]⟩))] ++ []) =
+    .ok (.join (.join (.table ⟨[116], none⟩) .inner ⟨[117], none⟩ (.pred ⟨.col ⟨[], [97]⟩, t_EQ, .col ⟨[], [98]⟩⟩))
+      .right ⟨[118], some [119]⟩ (.val (.col ⟨[], [99]⟩))) [] :=
+  C10_join_chain_roundtrip {} stdLit stdLitTok_good [] trivial _ (by decide) _ 0 20 (by decide)
+
+/-! The concrete statements `c10ExSelect`, `c10ExInsert`, `c10ExCreate`, `c10ExUpdate` and the options
+`c10ExOpts` of the non-vacuity examples below are defined at the end of `Proofs/RoundtripStmt8.lean`. -/
+
+/-- **C10.parse_statement_roundtrip**: `parseStatement` reads every well-formed statement back from
+`renderStmt o s`, whatever optional spellings `o` chooses, and consumes exactly its tokens.
+Hypotheses: the literals `ok` accepts are written by good tokens; the next token is none a
+production would go on reading (`stmtBad`: a semicolon or the end is fine); behind a SELECT without
+FROM there is at most one token (`p.HasNext()`); fuel = token count + 2. -/
+theorem C10_parse_statement_roundtrip (o : ROpts) (ok : Lit → Bool) (hlit : ∀ l, ok l = true → GoodLit o.lit l)
+    (s : Stmt) (hw : wfStmt ok s = true) (rest : List Token) (hr : HeadNot stmtBad rest)
+    (hshort : needsShortTail s = true → rest.length ≤ 1)
+    (f : Nat) (hf : (renderStmt o s).length + 2 ≤ f) :
+    parseStmt f (renderStmt o s ++ rest) = .ok s rest :=
+  parseStmt_tok o ok hlit s hw rest hr hshort f hf
+
+/-- the UPDATE, followed by a semicolon that is left unread -/
+example : parseStmt 40 (renderStmt c10ExOpts c10ExUpdate ++ [⟨t_SEMICOLON, []⟩]) = .ok c10ExUpdate [⟨t_SEMICOLON, []⟩] :=
+  C10_parse_statement_roundtrip c10ExOpts stdLit stdLitTok_good c10ExUpdate (by decide) _ (by decide)
+    (by decide) 40 (by decide)
+
+/-- **C10.statement_roundtrip (any literal tokens)**: `Parser.Parse` - with its own fuel - returns `s`
+for the tokens of `s` followed by `k` closing semicolons and an EOF token or nothing.
+Hypotheses: `o.lit` is good on the literals `ok` accepts, `s` is well formed relative to `ok`, and
+the closing is one the parser allows (`closingOK`: any, except that a SELECT without FROM takes at
+most one token behind it). -/
+theorem C10_statement_roundtrip_lit (o : ROpts) (ok : Lit → Bool) (hlit : ∀ l, ok l = true → GoodLit o.lit l)
+    (s : Stmt) (hw : wfStmt ok s = true) (k : Nat) (e : Bool) (hc : closingOK s k e = true) :
+    parseTokens (renderStmt o s ++ closing o k e) = .ok s :=
+  parseTokens_render o ok hlit s hw k e hc
+
+/-- literal tokens other than the standard ones: integers written with a `+` sign -/
+example : parseTokens (renderStmt { lit := fun l => match l with
+      | .int i => ⟨t_INT, 43 :: natDigits i.toNat⟩ | l => stdLitTok l } c10ExCreate ++ closing {} 1 false) =
+    .ok c10ExCreate :=
+  C10_statement_roundtrip_lit _ (fun l => decide (l = .int 255)) (fun l hl => by
+    simp only [decide_eq_true_eq] at hl; subst hl; exact ⟨rfl, rfl⟩) c10ExCreate (by decide) 1 false (by decide)
+
+/-- **C10.statement_roundtrip** - parsing is faithful, token level, ALL productions.  For every
+well-formed statement `s` (`WFStmt`, decidable: the statements the grammar can express) and every
+choice `o` of the optional spellings - keyword texts (any case), AS before an alias or not, INNER
+before JOIN or not, ASC written or not, commas in GROUP BY or not, `GROUP BY` with an empty list,
+LIMIT before OFFSET or after, `()` for an empty INSERT column list, `SHOW DATABASE` or
+`SHOW databases` in any case - the token list `renderStmt o s`, closed by any number `k` of
+semicolons and an EOF token or nothing, parses to exactly `s`: same kind, names, literals,
+operators, clause contents and order.  This contains: AND groups tighter than OR (the shape in
+`WFStmt` is the tree with that grouping and it comes back unchanged); LEFT / RIGHT / INNER,
+ASC / DESC, LIMIT / OFFSET are mapped to themselves; every element of every comma separated list
+comes back (`C10_no_list_cut` spells that out).  Hypotheses: literals are written by the standard
+tokens (`o.lit = stdLitTok`, the default); `closingOK`: behind a SELECT without FROM at most one
+closing token is accepted by the code (`SELECT 1;;` is refused, see the witness below). -/
+theorem C10_statement_roundtrip (o : ROpts) (ho : o.lit = stdLitTok) (s : Stmt) (hw : WFStmt s)
+    (k : Nat) (e : Bool) (hc : closingOK s k e = true) :
+    parseTokens (renderStmt o s ++ closing o k e) = .ok s :=
+  parseTokens_render o stdLit (fun l hl => by rw [ho]; exact stdLitTok_good l hl) s hw k e hc
+
+/-- **C10.no_list_cut**: no clause written in standard form is cut short - the statement parsed
+from the tokens of `s` has the same select list, GROUP BY list, ORDER BY list, INSERT column list,
+VALUES rows (and values in each row), SET assignments and column definitions as `s`: same elements
+in the same order, hence the same lengths.  (This is `C10_statement_roundtrip` read list by list;
+the loop-level facts for arbitrary element parsers are `C10_sep_list_whole` and
+`C10_guarded_list_whole`; that nothing behind a statement is dropped is `C10_no_silent_tail`.) -/
+theorem C10_no_list_cut (o : ROpts) (ho : o.lit = stdLitTok) (s : Stmt) (hw : WFStmt s)
+    (k : Nat) (e : Bool) (hc : closingOK s k e = true) :
+    (∀ sel, s = .select sel → ∃ sel', parseTokens (renderStmt o s ++ closing o k e) = .ok (.select sel') ∧
+      sel'.list = sel.list ∧ sel'.groupBy = sel.groupBy ∧ sel'.orderBy = sel.orderBy ∧
+      sel'.list.length = sel.list.length ∧ sel'.groupBy.length = sel.groupBy.length ∧
+      sel'.orderBy.length = sel.orderBy.length) ∧
+    (∀ t cols rows, s = .insert t cols rows → ∃ cols' rows',
+      parseTokens (renderStmt o s ++ closing o k e) = .ok (.insert t cols' rows') ∧ cols' = cols ∧ rows' = rows ∧
+      rows'.length = rows.length ∧ rows'.map List.length = rows.map List.length) ∧
+    (∀ t sets w, s = .update t sets w → ∃ sets',
+      parseTokens (renderStmt o s ++ closing o k e) = .ok (.update t sets' w) ∧ sets' = sets ∧
+      sets'.length = sets.length) ∧
+    (∀ n cols, s = .createTable n cols → ∃ cols',
+      parseTokens (renderStmt o s ++ closing o k e) = .ok (.createTable n cols') ∧ cols' = cols ∧
+      cols'.length = cols.length) := by
+  have h := C10_statement_roundtrip o ho s hw k e hc
+  refine ⟨?_, ?_, ?_, ?_⟩
+  · intro sel hs; subst hs; exact ⟨sel, h, rfl, rfl, rfl, rfl, rfl, rfl⟩
+  · intro t cols rows hs; subst hs; exact ⟨cols, rows, h, rfl, rfl, rfl, rfl⟩
+  · intro t sets w hs; subst hs; exact ⟨sets, h, rfl, rfl⟩
+  · intro n cols hs; subst hs; exact ⟨cols, h, rfl, rfl⟩
+
+/-- the three VALUES rows (of 3, 3 and 0 values) of the concrete INSERT come back -/
+example : ∃ cols' rows', parseTokens (renderStmt c10ExOpts c10ExInsert ++ closing c10ExOpts 1 false) =
+      .ok (.insert [116] cols' rows') ∧ rows'.length = 3 ∧ rows'.map List.length = [3, 3, 0] := by
+  obtain ⟨c, r, h, hc, hr, _, _⟩ :=
+    (C10_no_list_cut c10ExOpts rfl c10ExInsert (by decide) 1 false (by decide)).2.1 _ _ _ rfl
+  exact ⟨c, r, h, by rw [hr]; rfl, by rw [hr]; rfl⟩
+
+/-- **C10.parsed_statements_are_wellformed** (the converse: `wfStmt` is not too narrow): whatever
+token list `Parser.Parse` accepts, the statement it returns is well formed relative to the literals
+a token can carry (`int64Lit`: strings, booleans, int64 integers).  In particular conditions have
+the AND-inside-OR shape, `*` stands alone in a select list, a SELECT without FROM has no other
+clause, an absent LIMIT / OFFSET is 0 and a present one is not negative, `validateGroupBy` passed. -/
+theorem C10_parsed_statements_are_wellformed (ts : List Token) (s : Stmt) (h : parseTokens ts = .ok s) :
+    wfStmt int64Lit s = true :=
+  parseTokens_wf h
+
+/-- the hypothesis is met by `SELECT 1;` -/
+example : wfStmt int64Lit (.select { list := [⟨.expr (.val (.lit (.int 1))), []⟩] }) = true :=
+  C10_parsed_statements_are_wellformed [⟨t_SELECT, []⟩, ⟨t_INT, [49]⟩, ⟨t_SEMICOLON, []⟩] _ rfl
+
+/-- **C10.wellformed_iff_parseable**: `wfStmt` describes exactly the statements the grammar can
+express - a statement is well formed relative to `int64Lit` if and only if some token list parses
+to it (for "if": its rendering, negative integers written with a minus sign in the INT token).
+`WFStmt` is the same predicate relative to the literals the scanner can write (`stdLit`: no
+negative integers). -/
+theorem C10_wellformed_iff_parseable (s : Stmt) :
+    wfStmt int64Lit s = true ↔ ∃ ts, parseTokens ts = .ok s :=
+  wfStmt_iff_parseable s
+
+/-- both directions are inhabited: the rich SELECT is well formed, hence parseable -/
+example : ∃ ts, parseTokens ts = .ok c10ExSelect := (C10_wellformed_iff_parseable _).mp (by decide)
+
+/-! ### Non-vacuity of `C10_statement_roundtrip`, and the findings -/
+
+example : WFStmt c10ExSelect ∧ WFStmt c10ExInsert ∧ WFStmt c10ExCreate ∧ WFStmt c10ExUpdate := by decide
+
+example : closingOK c10ExSelect 3 true = true ∧ closingOK (.select { list := [⟨.star, []⟩] }) 1 false = true := by
+  decide
+
+/-- the theorem instantiated: default spellings and the non-default ones, three semicolons and EOF -/
+example : parseTokens (renderStmt {} c10ExSelect ++ closing {} 3 true) = .ok c10ExSelect ∧
+    parseTokens (renderStmt c10ExOpts c10ExSelect ++ closing c10ExOpts 0 false) = .ok c10ExSelect ∧
+    parseTokens (renderStmt c10ExOpts c10ExInsert ++ closing c10ExOpts 2 false) = .ok c10ExInsert ∧
+    parseTokens (renderStmt {} c10ExCreate ++ closing {} 0 true) = .ok c10ExCreate ∧
+    parseTokens (renderStmt c10ExOpts c10ExUpdate ++ closing c10ExOpts 1 true) = .ok c10ExUpdate ∧
+    parseTokens (renderStmt c10ExOpts .showDatabases ++ closing c10ExOpts 1 false) = .ok .showDatabases :=
+  ⟨C10_statement_roundtrip {} rfl _ (by decide) 3 true (by decide),
+   C10_statement_roundtrip c10ExOpts rfl _ (by decide) 0 false (by decide),
+   C10_statement_roundtrip c10ExOpts rfl _ (by decide) 2 false (by decide),
+   C10_statement_roundtrip {} rfl _ (by decide) 0 true (by decide),
+   C10_statement_roundtrip c10ExOpts rfl _ (by decide) 1 true (by decide),
+   C10_statement_roundtrip c10ExOpts rfl _ (by decide) 1 false (by decide)⟩
+
+/-- the same by evaluation of the model (independent of the proofs): the 102 tokens of the SELECT
+with default spellings, and the spellings of `c10ExOpts` -/
+example : parseTokens (renderStmt {} c10ExSelect) = .ok c10ExSelect ∧
+    parseTokens (renderStmt c10ExOpts c10ExSelect ++ closing c10ExOpts 2 false) = .ok c10ExSelect ∧
+    parseTokens (renderStmt c10ExOpts c10ExInsert) = .ok c10ExInsert ∧
+    parseTokens (renderStmt {} c10ExCreate) = .ok c10ExCreate := by
+  refine ⟨?_, ?_, ?_, ?_⟩ <;> rfl
+
+/-- the first tokens of the rendering are what one expects: `SELECT t . a AS x , COUNT ( * ) c , …` -/
+example : (renderStmt {} c10ExSelect).take 12 =
+    [⟨t_SELECT, []⟩, ⟨t_IDENT, [116]⟩, ⟨t_DOT, []⟩, ⟨t_IDENT, [97]⟩, ⟨t_AS, []⟩, ⟨t_IDENT, [120]⟩, ⟨t_COMMA, []⟩,
+     ⟨t_COUNT, []⟩, ⟨t_LPAREN, []⟩, ⟨t_ASTRSK, []⟩, ⟨t_RPAREN, []⟩, ⟨t_AS, []⟩] := by decide
+
+/-- **Finding (closing of a SELECT without FROM)**: `SELECT 1` and `SELECT 1;` parse, `SELECT 1;;`
+is refused ("unexpected token ;, expected FROM") although `SELECT * FROM t;;` is accepted: the
+test `!hasFromClause && p.HasNext()` of `Parser.Select` counts tokens instead of looking for the
+end of the statement.  This is why `closingOK` restricts the closing of such a SELECT. -/
+example :
+    parseTokens [⟨t_SELECT, []⟩, ⟨t_INT, [49]⟩, ⟨t_SEMICOLON, []⟩] =
+      .ok (.select { list := [⟨.expr (.val (.lit (.int 1))), []⟩] }) ∧
+    parseTokens [⟨t_SELECT, []⟩, ⟨t_INT, [49]⟩, ⟨t_SEMICOLON, []⟩, ⟨t_SEMICOLON, []⟩] = .err .unexpected ∧
+    parseTokens [⟨t_SELECT, []⟩, ⟨t_ASTRSK, []⟩, ⟨t_FROM, []⟩, ⟨t_IDENT, [116]⟩, ⟨t_SEMICOLON, []⟩, ⟨t_SEMICOLON, []⟩] =
+      .ok (.select { list := [⟨.star, []⟩], from_ := some (.table ⟨[116], none⟩) }) := by
+  refine ⟨?_, ?_, ?_⟩ <;> rfl
+
+/-- standard spellings outside the grammar are refused, not cut: `FROM t AS x`, `LEFT OUTER JOIN` -/
+example :
+    parseTokens [⟨t_SELECT, []⟩, ⟨t_ASTRSK, []⟩, ⟨t_FROM, []⟩, ⟨t_IDENT, [116]⟩, ⟨t_AS, []⟩, ⟨t_IDENT, [120]⟩] =
+      .err .syntax ∧
+    parseTokens [⟨t_SELECT, []⟩, ⟨t_ASTRSK, []⟩, ⟨t_FROM, []⟩, ⟨t_IDENT, [116]⟩, ⟨t_LEFT, []⟩, ⟨t_OUTER, []⟩,
+      ⟨t_JOIN, []⟩, ⟨t_IDENT, [117]⟩, ⟨t_ON, []⟩, ⟨t_IDENT, [97]⟩] = .err .unexpected := by
+  refine ⟨?_, ?_⟩ <;> rfl
 
 end Mkdb.Sql
